@@ -211,6 +211,98 @@ def rule_export(rep, repo):
                                                                 []))}})
 
 
+def rule_po2_export_values(rep, repo, tier):
+  """R4 (values): for real power-of-two quantizer configurations - including
+  quadratic_approximation, max_value and leaky slopes - the exported (sign,
+  exponent) pair is evaluated for every value the quantizer can store (its
+  abstract output value set is finite): sign * 2**exponent must be that
+  value.  The stand-in quantizer carries every attribute of the real object
+  (so attribute tests in the export behave as they do at run time) and an
+  uninterpreted __call__; the stored weight is then enumerated."""
+  from .. import quant
+  from ..qir import value_set, simplify_app
+  from ..pe import ConfigRejected
+  um = repo.module(UM)
+  fn = um.functions["model_save_quantized_weights"]
+  unit = "%s::model_save_quantized_weights" % um.relpath
+  loc = um.loc(fn)
+  fw = Fwd()
+  cfgs = [("quantized_po2", dict(bits=4)),
+          ("quantized_po2", dict(bits=4, max_value=2)),
+          ("quantized_po2", dict(bits=4, quadratic_approximation=True)),
+          ("quantized_po2", dict(bits=3, max_value=1)),
+          ("quantized_relu_po2", dict(bits=3)),
+          ("quantized_relu_po2", dict(bits=3, quadratic_approximation=True)),
+          ("quantized_relu_po2", dict(bits=4, max_value=2))]
+  if tier == "thorough":
+    cfgs += [("quantized_po2", dict(bits=b, quadratic_approximation=qa,
+                                    max_value=mv))
+             for b in (2, 5, 6) for qa in (False, True)
+             for mv in (None, F(1, 2), 8)]
+  n = 0
+  for cls, kw in cfgs:
+    cfg = "%s(%s)" % (cls, ",".join("%s=%s" % kv for kv in kw.items()))
+    try:
+      b = quant.build(repo, cls, kw)
+    except ConfigRejected:
+      continue
+    vs = value_set(b.fwd("infer"))
+    if vs.kind != "po2" or vs.exps.kind != "fin" and \
+        None in vs.exps.bounds():
+      continue
+    elo, ehi = vs.exps.bounds()
+    exps = [e for e in range(int(elo), int(ehi) + 1)
+            if vs.exps.contains_value(F(e))]
+    attrs = {k: v for k, v in b.obj.attrs.items()
+             if not isinstance(v, Tensor)}
+    q = qmock("po2", cls, **attrs)
+    record = {}
+    lyr = layer_mock("po2layer", ["QDense"], [q, None],
+                     [S("w0"), S("w1")], record)
+    try:
+      out = run_export(repo, [lyr])
+    except PyRaise as e:
+      rep.fail("R4", unit, "po2-export-raises", "%s: the export raises %s" %
+               (cfg, e), loc=loc, instance=cfg)
+      continue
+    ent = out.get("po2layer", {})
+    hw, sg = ent.get("weights", [None])[0], (ent.get("signs") or [None])[0]
+    if sg is None and vs.signs == frozenset([1]):
+      # the unsigned variant exports no sign: every weight is positive
+      sg = Tensor(("c", F(1)), ())
+    if not isinstance(hw, Tensor) or not isinstance(sg, Tensor):
+      rep.fail("R4", unit, "po2-not-exported-as-sign-exponent",
+               "%s: exported weights/signs are %r / %r" % (cfg, hw, sg),
+               loc=loc, instance=cfg)
+      continue
+    hw_nf, sg_nf = fw(hw.term), fw(sg.term)
+    qatoms = [a for a in set(hw_nf.atoms()) | set(sg_nf.atoms())
+              if a[0] == "app" and a[1] == "Q_po2"]
+    if len(set(qatoms)) != 1:
+      raise AnalysisError("unsupported-construct exported po2 weight does "
+                          "not depend on exactly one stored weight")
+    atom = qatoms[0]
+    n += 1
+    bad = []
+    for s_ in sorted(vs.signs):
+      for e in exps:
+        v = F(s_) * F(2) ** e
+        try:
+          he = hw_nf.subst({atom: NF.const(v)}, simplify_app).const_value()
+          se = sg_nf.subst({atom: NF.const(v)}, simplify_app).const_value()
+        except ZeroDivisionError:
+          he = se = None
+        if he is None or se is None or se * F(2) ** int(he) != v or \
+            he.denominator != 1:
+          bad.append("%s -> sign %s exponent %s" % (v, se, he))
+    rep.check(not bad, "R4", unit, "po2-sign*2^exponent!=stored-weight",
+              "%s: for stored weights %s the exported pair does not rebuild "
+              "the weight" % (cfg, bad[:6]), loc=loc, instance=cfg)
+  if n < 6:
+    raise AnalysisError("instance-count only %d po2 export configurations"
+                        % n)
+
+
 def rule_bn_fusing(rep, repo):
   um = repo.module(UM)
   fn = um.functions.get("add_bn_fusing_weights")
@@ -695,6 +787,7 @@ def run(rep, repo, tier):
                          "consequences (idempotence, C02) and are not "
                          "decided here")
   rule_export(rep, repo)
+  rule_po2_export_values(rep, repo, tier)
   rule_bn_fusing(rep, repo)
   rule_pairing(rep, repo)
   rule_frozen_scale(rep, repo)
